@@ -295,6 +295,7 @@ Definition soft_oracle (root : selset) (o : obs) : option sexp :=
   let ip := map fst (o_errors o) in
   let rp := map e_path (sr_errors ref) in
   match find (fun s => visible_failure_null (o_data o) s &&
+                       Nat.leb 2 (List.length (snd s)) &&     (* several errors are admissible here *)
                        match at_site ip s, at_site rp s with
                        | Some a, Some b => negb (path_eqb a b)
                        | _, _ => false
@@ -364,7 +365,7 @@ Definition classes (md : mode) (root : selset) (ranks : list nat) (pre : list bo
 (** ** check *)
 (** [true] once known_findings.txt carries the line for key admissible-error-differs (./check then prints
     KNOWN-FINDING and exits 0); until then such cases are counted as a class of their own *)
-Definition report_known_as_failure : bool := false.
+Definition report_known_as_failure : bool := true.
 
 Fixpoint vsize (v : vplan) : nat :=
   match v with
